@@ -234,12 +234,13 @@ func runHistory(res *vh.Result, tr *vh.Trace, src string, hist []Step) {
 			switch st.Op {
 			case "add":
 				if conc {
-					// the same transaction offered by two producers (P2P relay and RPC) at the same moment
+					// the same transaction offered by several producers (P2P relays, RPC) at the same moment
 					var wg sync.WaitGroup
-					errs := make([]error, 2)
-					pans := make([]any, 2)
+					const producers = 4
+					errs := make([]error, producers)
+					pans := make([]any, producers)
 					start := make(chan struct{})
-					for g := 0; g < 2; g++ {
+					for g := 0; g < producers; g++ {
 						wg.Add(1)
 						go func(g int) {
 							defer wg.Done()
@@ -250,15 +251,19 @@ func runHistory(res *vh.Result, tr *vh.Trace, src string, hist []Step) {
 					}
 					close(start)
 					wg.Wait()
-					if pans[0] != nil || pans[1] != nil {
-						panic(fmt.Sprint(pans[0], pans[1]))
-					}
+					oks := 0
 					opErr = errs[0]
-					if errs[1] == nil || errs[0] == nil {
-						opErr = nil
+					for g := range errs {
+						if pans[g] != nil {
+							panic(fmt.Sprint(pans[g]))
+						}
+						if errs[g] == nil {
+							oks++
+							opErr = nil
+						}
 					}
-					if errs[0] == nil && errs[1] == nil {
-						res.Inc("concurrent_adds_both_ok", 1)
+					if oks > 1 {
+						res.Inc("concurrent_adds_several_ok", 1)
 					}
 					res.Inc("concurrent_add_rounds", 1)
 				} else {
@@ -408,7 +413,7 @@ func TestDriver(t *testing.T) {
 	for i := 0; i < nr; i++ {
 		u := randomUniverse(r)
 		runHistory(res, tr, fmt.Sprintf("rnd-%d", i), u)
-		if i%3 == 0 { // the same history with every addition made by two producers at once
+		if i%2 == 0 { // the same history with every addition made by several producers at once
 			runHistory(res, tr, fmt.Sprintf("rnd-%dc", i), u)
 		}
 	}
